@@ -10,18 +10,22 @@ Local Open Scope N_scope.
 Definition lock_is (l : lock) (o : option tid) : Prop :=
   l = match o with Some t => Some (t, 1%nat) | None => None end.
 
-Definition delay_owner (s : dstate) : option tid :=
-  match cancel_todo (ipc s), tpc s with
-  | Some _, _ => Some Interp
-  | None, TReadyLocked _ => Some Timer
-  | None, _ => None
+(* the interpreter thread holds _delayMutex at this schedule point *)
+Definition iholds (v : dvariant) (i : ipc_t) : bool :=
+  match i with
+  | IQBefore _ _ _ | IQLocked _ _ _ => true
+  | ISendArmed _ _ _ => negb (dv_enqueue_arms_first v)
+  | _ => false
   end.
+Definition delay_owner (v : dvariant) (s : dstate) : option tid :=
+  if iholds v (ipc s) then Some Interp
+  else match tpc s with TReadyLocked _ => Some Timer | _ => None end.
 Definition queue_owner (s : dstate) : option tid :=
   match ipc s with IQLocked _ _ _ | IAllLocked => Some Interp | _ => None end.
 
-Record InvLock (s : dstate) : Prop := {
-  k_delay : lock_is (delayM s) (delay_owner s);
-  k_excl : cancel_todo (ipc s) <> None -> forall u, tpc s <> TReadyLocked u;
+Record InvLock (v : dvariant) (s : dstate) : Prop := {
+  k_delay : lock_is (delayM s) (delay_owner v s);
+  k_excl : iholds v (ipc s) = true -> forall u, tpc s <> TReadyLocked u;
   k_queue : lock_is (queueM s) (queue_owner s);
   k_cur : current_cb s = tpc_on (tpc s)
 }.
@@ -42,43 +46,81 @@ Section Races.
   Lemma tpc_ready_dec t : (exists u, t = TReadyLocked u) \/ (forall u, t <> TReadyLocked u).
   Proof. destruct t; try (right; discriminate). left; eauto. Qed.
 
+  (* the lock fields and the owners are unchanged (the interpreter's point may change within a class) *)
   Ltac same_owner H :=
     constructor; lk; rewrite ?H in *; cbn in *; auto;
-    try (destruct (cancel_todo (ipc _)); auto; discriminate).
+    try (destruct (iholds v (ipc _)); auto; discriminate).
 
-  Lemma InvLock_step s s' : step_rel v pick s s' -> InvLock s -> InvLock s'.
+  (* the interpreter thread, not holding _delayMutex, gets it: it was free *)
+  Lemma acquire_interp s dl : InvLock v s -> iholds v (ipc s) = false -> acquire (delayM s) Interp = Some dl ->
+    dl = Some (Interp, 1%nat) /\ delayM s = None /\ forall u, tpc s <> TReadyLocked u.
   Proof.
-    intros Hs [Hd He Hq Hc]. destruct Hs; lk.
+    intros [Hd _ _ _] Hh Hacq. unfold lock_is, delay_owner in Hd. rewrite Hh in Hd.
+    apply acquire_some in Hacq as [[H1 ->]|[d H1]].
+    - repeat split; auto. intros u Ht. rewrite Ht, H1 in Hd. discriminate.
+    - rewrite H1 in Hd. destruct (tpc s); discriminate.
+  Qed.
+
+  Lemma release_interp s : InvLock v s -> iholds v (ipc s) = true ->
+    release (delayM s) = None /\ forall u, tpc s <> TReadyLocked u.
+  Proof.
+    intros [Hd He _ _] Hh. unfold lock_is, delay_owner in Hd. rewrite Hh in Hd. rewrite Hd. split; auto.
+  Qed.
+
+  Lemma not_ready_owner s : (forall u, tpc s <> TReadyLocked u) ->
+    match tpc s with TReadyLocked _ => Some Timer | _ => None end = None.
+  Proof. intros H. destruct (tpc s); try reflexivity. now destruct (H u). Qed.
+
+  Lemma InvLock_step s s' : step_rel v pick s s' -> InvLock v s -> InvLock v s'.
+  Proof.
+    intros Hs HL. pose proof HL as [Hd He Hq Hc]. destruct Hs.
     - same_owner H.
-    - same_owner H.
+    - (* send: arms the timer; as it is, under _delayMutex *)
+      assert (Hh : iholds v (ipc s) = false) by (now rewrite H).
+      destruct (dv_enqueue_arms_first v) eqn:Haf.
+      + injection H3 as <-. constructor; lk; rewrite ?H, ?Haf in *; cbn in *; auto; try discriminate.
+      + destruct (acquire_interp _ _ HL Hh H3) as (-> & _ & Hnr).
+        constructor; lk; rewrite ?H, ?Haf in *; cbn in *; auto.
+    - (* enqueue returns *)
+      assert (Hh : iholds v (ipc s) = true) by (rewrite H; cbn; now rewrite H0).
+      destruct (release_interp _ HL Hh) as [Hr Hnr].
+      constructor; lk; rewrite ?H in *; cbn in *; auto; try discriminate.
+      rewrite Hr, (not_ready_owner _ Hnr). reflexivity.
+    - (* the target is recorded after arming *)
+      unfold lock_is, delay_owner in Hd. rewrite H in Hd. cbn in Hd. rewrite H0 in Hd. cbn in Hd.
+      unfold lock_is, queue_owner in Hq. rewrite H in Hq.
+      constructor; lk; rewrite ?H; cbn; auto; try discriminate.
     - same_owner H.
     - (* cancel, nothing to do *)
-      rewrite H in *. cbn in *. apply acquire_some in H1 as [[H1 ->]|[d H1]].
-      + constructor; lk; rewrite ?H; cbn; auto. rewrite <- Hd. now symmetry.
-      + rewrite H1 in Hd. destruct (tpc s); discriminate.
+      assert (Hh : iholds v (ipc s) = false) by (now rewrite H).
+      destruct (acquire_interp _ _ HL Hh H1) as (-> & _ & Hnr).
+      constructor; lk; rewrite ?H in *; cbn in *; auto; try discriminate.
+      rewrite (not_ready_owner _ Hnr). reflexivity.
     - (* cancel starts *)
-      rewrite H in *. cbn in *. apply acquire_some in H1 as [[H1 ->]|[d H1]].
-      + constructor; lk; rewrite ?H; cbn; auto. intros _ u0 Ht. rewrite Ht, H1 in Hd. discriminate.
-      + rewrite H1 in Hd. destruct (tpc s); discriminate.
+      assert (Hh : iholds v (ipc s) = false) by (now rewrite H).
+      destruct (acquire_interp _ _ HL Hh H1) as (-> & _ & Hnr).
+      constructor; lk; rewrite ?H in *; cbn in *; auto.
     - (* cancelAll takes the lock *)
-      rewrite H in *. cbn in *. apply acquire_some in H1 as [[H1 ->]|[d H1]].
-      + constructor; lk; rewrite ?H; cbn; auto.
+      unfold lock_is, queue_owner in Hq; rewrite H in Hq. lk. apply acquire_some in H1 as [[H1 ->]|[d H1]].
+      + constructor; lk; rewrite ?H in *; cbn in *; auto; try discriminate.
       + rewrite H1 in Hq. discriminate.
     - (* cancelAll done *)
-      rewrite H in *. cbn in *. constructor; lk; rewrite ?H; cbn; auto. now rewrite Hq.
+      unfold lock_is, queue_owner in Hq; rewrite H in Hq. lk. constructor; lk; rewrite ?H in *; cbn in *; auto; try discriminate. now rewrite Hq.
     - same_owner H.
     - (* cancelDelayed takes the queue lock *)
-      rewrite H in *. cbn in *. apply acquire_some in H0 as [[H0 ->]|[d H0]].
-      + constructor; lk; rewrite ?H; cbn; auto.
+      unfold lock_is, queue_owner in Hq; rewrite H in Hq. lk. apply acquire_some in H0 as [[H0 ->]|[d H0]].
+      + constructor; lk; rewrite ?H in *; cbn in *; auto.
       + rewrite H0 in Hq. discriminate.
     - (* last cancel step *)
-      rewrite H in *. cbn in *. constructor; lk; rewrite ?H; cbn; auto.
-      + rewrite Hd. cbn. destruct (tpc_ready_dec (tpc s)) as [[u0 Hu]|Hn].
-        * exfalso. eapply He; [discriminate | exact Hu].
-        * destruct (tpc s); try reflexivity. now destruct (Hn u0).
+      assert (Hh : iholds v (ipc s) = true) by (now rewrite H).
+      destruct (release_interp _ HL Hh) as [Hr Hnr].
+      unfold lock_is, queue_owner in Hq; rewrite H in Hq. lk.
+      constructor; lk; rewrite ?H in *; cbn in *; auto; try discriminate.
+      + rewrite Hr, (not_ready_owner _ Hnr). reflexivity.
       + now rewrite Hq.
     - (* cancel step, more to do *)
-      rewrite H in *. cbn in *. constructor; lk; rewrite ?H; cbn; auto; [intros _; apply He; discriminate | now rewrite Hq].
+      unfold lock_is, queue_owner in Hq; rewrite H in Hq. lk. constructor; lk; rewrite ?H in *; cbn in *; auto.
+      now rewrite Hq.
     - same_owner H.
     - (* expire *) same_owner H.
     - same_owner H.
@@ -86,14 +128,14 @@ Section Races.
     - same_owner H.
     - same_owner H.
     - (* eventReady takes the lock *)
-      rewrite H in *. cbn in *. destruct (cancel_todo (ipc s)) eqn:Ect.
+      lk. destruct (iholds v (ipc s)) eqn:Hh.
       + apply acquire_some in H0 as [[H0 _]|[d H0]]; rewrite H0 in Hd; discriminate.
-      + apply acquire_some in H0 as [[H0 ->]|[d H0]]; [|rewrite H0 in Hd; discriminate].
-        constructor; lk; rewrite ?H, ?Ect; cbn; auto; congruence.
+      + rewrite H in Hd. apply acquire_some in H0 as [[H0 ->]|[d H0]]; [|rewrite H0 in Hd; discriminate].
+        constructor; lk; rewrite ?H, ?Hh; cbn; auto; [discriminate | rewrite Hc, H; reflexivity].
     - (* delivery *)
-      rewrite H in *. cbn in *. destruct (cancel_todo (ipc s)) eqn:Ect.
-      + exfalso. eapply He; [discriminate | reflexivity].
-      + constructor; lk; rewrite ?H, ?Ect; cbn; auto; try congruence; now rewrite Hd.
+      lk. destruct (iholds v (ipc s)) eqn:Hh.
+      + exfalso. eapply He; [reflexivity | exact H].
+      + rewrite H in Hd. constructor; lk; rewrite ?H, ?Hh; cbn; auto; try congruence; [now rewrite Hd | rewrite Hc, H; reflexivity].
     - same_owner H.
     - same_owner H.
   Qed.
@@ -139,9 +181,9 @@ Section Races.
 
   Hypothesis Htakes : dv_cb_takes_entry v = true.
 
-  Lemma InvAlloc_step s s' : step_rel v pick s s' -> InvLock s -> InvAlloc s -> InvAlloc s' /\ (fault s = None -> fault s' = None).
+  Lemma InvAlloc_step s s' : step_rel v pick s s' -> InvLock v s -> InvAlloc s -> InvAlloc s' /\ (fault s = None -> fault s' = None).
   Proof.
-    intros Hs HL [Ha He]. pose proof (k_cur _ HL) as Hcur.
+    intros Hs HL [Ha He]. pose proof (k_cur _ _ HL) as Hcur.
     destruct Hs; cbn; (split; [|try reflexivity]).
     - constructor; cbn; auto.
     - (* send *)
@@ -151,6 +193,8 @@ Section Races.
         destruct (u =? u0); [discriminate | apply Ha].
       + intros Hnb u0 Ht. rewrite lookup_put. destruct (u =? u0) eqn:E; [discriminate|].
         rewrite Hlk, E. auto.
+    - constructor; cbn; auto.
+    - constructor; cbn; auto.
     - constructor; cbn; auto.
     - intros _. exfalso. eapply cancel_entry_no_fault; eauto.
     - constructor; cbn; auto.
@@ -261,26 +305,30 @@ Section NoDeadlock.
   Lemma acquire_free t : acquire None t = Some (Some (t, 1%nat)).
   Proof. reflexivity. Qed.
 
-  Lemma no_deadlock_state s : InvLock s -> deadlocked v pick s = false.
+  Lemma no_deadlock_state s : InvLock v s -> deadlocked v pick s = false.
   Proof.
     intros [Hd He Hq Hc]. unfold deadlocked, dstep. destruct (fault s) eqn:Hf; [reflexivity|].
     unfold lock_is, delay_owner, queue_owner in *.
     destruct (istep v s) eqn:Hi; [reflexivity|].
     destruct (tstep v pick s) eqn:Ht; [reflexivity|].
     unfold quiescent. unfold istep in Hi. unfold tstep in Ht.
-    destruct (ipc s) as [|sid u todo|sid u todo|] eqn:Hipc; cbn in *.
+    destruct (ipc s) as [|u0 sid0 tgt0|sid u todo|sid u todo|] eqn:Hipc; cbn in *.
     - (* the interpreter is between operations *)
-      rewrite Hq in *. 
+      rewrite Hq in *.
       destruct (tpc s) as [|u|u|u|u] eqn:Htpc; cbn in *; rewrite ?Hd in *; cbn in *; try discriminate.
       + (* timer idle: the next operation, if any, can start *)
         destruct (prog s) as [|[u sid tgt d|sid|] rest]; [reflexivity| | |]; cbn in *.
         * destruct (d =? 0); [discriminate|].
-          destruct (cancel_entry v (current_cb s) (pending s) u) eqn:E; try discriminate.
-          exfalso. eapply cancel_entry_not_blocked; eauto.
+          destruct (dv_enqueue_arms_first v); cbn in *;
+            (destruct (cancel_entry v (current_cb s) (pending s) u) eqn:E; try discriminate;
+             exfalso; eapply cancel_entry_not_blocked; eauto).
         * destruct (map fst (filter (fun kv => fst (snd kv) =? sid) (targets s))); discriminate.
         * discriminate.
       + destruct (lookup (pending s) u) as [p|]; [destruct (negb (p_alloc p)); discriminate|].
         rewrite Hnb in Ht. discriminate.
+    - (* in enqueue, the timer is armed *)
+      destruct (dv_enqueue_arms_first v); cbn in *; [|discriminate].
+      destruct (tpc s) as [|u|u|u|u] eqn:Htpc; cbn in *; rewrite ?Hd in *; cbn in *; try discriminate.
     - (* at delay.cancel.before: the queue lock is free *)
       rewrite Hq in Hi. cbn in Hi. discriminate.
     - destruct (cancel_entry v (current_cb s) (pending s) u) eqn:E.
@@ -299,10 +347,10 @@ Section RaceTheorems.
   Variable pick : list (N * N) -> N -> option N.
   Hypothesis Hpick : pick_sound pick.
 
-  Lemma InvLock_init p : InvLock (init p).
+  Lemma InvLock_init p : InvLock v (init p).
   Proof. constructor; cbn; try reflexivity. intros H; now destruct H. Qed.
 
-  Lemma InvLock_run sched : forall s, InvLock s -> InvLock (run v pick s sched).
+  Lemma InvLock_run sched : forall s, InvLock v s -> InvLock v (run v pick s sched).
   Proof.
     induction sched as [|t r IH]; cbn; intros s H; [exact H|]. apply IH.
     unfold step_or_stay. destruct (dstep v pick s t) eqn:E; [|exact H].
@@ -316,7 +364,7 @@ Section RaceTheorems.
 
   (* no use of a freed timer object, no double free *)
   Lemma alloc_run (Htakes : dv_cb_takes_entry v = true) sched : forall s,
-    InvLock s -> InvAlloc v s -> fault s = None ->
+    InvLock v s -> InvAlloc v s -> fault s = None ->
     InvAlloc v (run v pick s sched) /\ fault (run v pick s sched) = None.
   Proof.
     induction sched as [|t r IH]; cbn; intros s HL HA Hf; [now split|].
@@ -335,7 +383,7 @@ Section RaceTheorems.
   Qed.
 
   Lemma routed_run (Hchecks : dv_ready_checks v = true) sched : forall s,
-    Inv s -> routed (trace s) -> routed (trace (run v pick s sched)).
+    Inv v s -> routed (trace s) -> routed (trace (run v pick s sched)).
   Proof.
     induction sched as [|t r IH]; cbn; intros s HI Hr; [exact Hr|].
     apply IH; [now apply Inv_step|].
@@ -363,10 +411,10 @@ End RaceTheorems.
 (* ------------------------------------------------------------------------------------------ *)
 (* the pinned code: witnesses *)
 Definition w_prog : list iop := [OSend 1 1 0 1; OCancel 1].
-(* send; tick; the callback starts; section 1 frees the timer; <cancel>: lock, lock, event_del *)
-Definition w_uaf : list tid := [Interp; Clock; Timer; Timer; Interp; Interp; Interp].
+(* send (arm, return); tick; the callback starts; section 1 frees the timer; <cancel>: lock, lock, event_del *)
+Definition w_uaf : list tid := [Interp; Interp; Clock; Timer; Timer; Interp; Interp; Interp].
 (* send; tick; the callback starts; <cancel> runs up to event_del *)
-Definition w_deadlock : list tid := [Interp; Clock; Timer; Interp; Interp].
+Definition w_deadlock : list tid := [Interp; Interp; Clock; Timer; Interp; Interp].
 
 Lemma pinned_uaf_witness :
   wf_prog w_prog = true /\ fault (run dv_pinned pick_min (init w_prog) w_uaf) = Some (UseAfterFree 1).
@@ -385,10 +433,10 @@ Proof. vm_compute. split; reflexivity. Qed.
 (* the entry taken in section 1 but no check in eventReady: the cancelled event is delivered to
    the wrong queue *)
 Definition w_prog_int : list iop := [OSend 1 1 1 1; OCancel 1].
-Definition w_misroute : list tid := [Interp; Clock; Timer; Timer; Interp; Interp; Interp; Timer; Timer].
+Definition w_misroute : list tid := [Interp; Interp; Clock; Timer; Timer; Interp; Interp; Interp; Timer; Timer].
 Lemma misroute_witness :
   In (EDeliver 1 1 0 true)
-     (trace (run {| dv_cb_takes_entry := true; dv_ready_checks := false; dv_cancel_noblock := false |}
+     (trace (run {| dv_cb_takes_entry := true; dv_ready_checks := false; dv_cancel_noblock := false; dv_enqueue_arms_first := false |}
                  pick_min (init w_prog_int) w_misroute)).
 Proof. vm_compute. auto. Qed.
 
@@ -404,7 +452,7 @@ Qed.
    two fires, the third does, nothing is left in the maps *)
 Example cancel_shared_sendid_example :
   let s := run dv_window pick_min (init [OSend 1 7 0 2; OSend 2 7 0 3; OSend 3 8 0 4; OCancel 7])
-               [Interp; Interp; Interp; Clock; Interp; Interp; Interp; Interp; Interp; Clock; Clock; Clock;
+               [Interp; Interp; Interp; Interp; Interp; Interp; Clock; Interp; Interp; Interp; Interp; Interp; Clock; Clock; Clock;
                 Timer; Timer; Timer; Timer; Timer] in
   delivered (trace s) = [3] /\ pending s = [] /\ targets s = [] /\ In (ECancelDone 7 1) (trace s).
 Proof. vm_compute. repeat split. auto 10. Qed.
